@@ -273,8 +273,30 @@ def check_state_across_include(res: Res, rng: random.Random) -> None:
                     {"p": {"rom": None}, "src": flat, "relayout_src": split, "relayout_files": {**files, "part_q.s": run}, "knobs": ["include-keeps-state"]})
 
 
+def check_keyword_comments(res: Res, rng: random.Random) -> None:
+    """A comment whose whole text is a word of the language (else, macro, if, scope, for, a mnemonic) is a comment like any other, wherever it stands."""
+    word = rng.choice(["else", "else", "macro", "if", "for", "scope", "nop", "db", "include", "{", "}", "else {", ".else"])
+    forms = [f"; {word}", f";{word}", f"/* {word} */", f"/*{word}*/"]
+    stmts = [".if 1 {", "lda #0x32", "}", "{", "ldx #2", "}", ".if 0 {", "nop", "}", "{", "ldy #3", "}", ".macro mq(pa) {", ".db pa", "}", "mq(7)", "rts"]
+    flat = "*=0x008000\n" + "\n".join(stmts) + "\n"
+    out = []
+    for st in stmts:
+        out.append(st)
+        if st == "}" or rng.random() < 0.3:
+            out.append(rng.choice(forms))
+    commented = "*=0x008000\n" + "\n".join(out) + "\n"
+    r0, r1 = assemble(flat), assemble(commented)
+    res.case(commented, r0.ok)
+    res.count("knob[keyword-comments]")
+    if sig(r1) != sig(r0):
+        bad = r1 if not r1.ok else r0
+        d = f"accepted={r0.ok} without vs accepted={r1.ok} with the comments ({bad.err_kind}: {bad.err_text[:160]})" if r0.ok != r1.ok else "output differs"
+        res.violate("layout:comments", f"comments whose text is `{word}` change the result: {d}", {"p": {"rom": None}, "src": flat, "relayout_src": commented, "knobs": ["keyword-comments"]})
+
+
 def check_program(res: Res, p: dict, rng: random.Random, relayouts: int) -> None:
     check_state_across_include(res, rng)
+    check_keyword_comments(res, rng)
     check_shared(res, p, rng, False)
     check_shared(res, p, rng, True)
     if rng.random() < 0.35:
